@@ -252,7 +252,7 @@ Proof.
       repeat match goal with X : send _ _ _ _ = Ok _ |- _ => apply send_marks in X; simpl in X end; congruence.
   - repeat (dmatch_in E; try discriminate). left; eapply send_marks; eauto.
   - repeat (dmatch_in E; try discriminate). left; eapply send_marks; eauto.
-  - (* rotation *) rewrite Hrot in E. destruct (negb ok); [discriminate|]. inversion E. left. reflexivity.
+  - (* rotation *) rewrite Hrot in E. destruct (negb ok || (a =? nw)); [discriminate|]. inversion E. left. reflexivity.
 Qed.
 
 Lemma marks_step : forall s o s', step s o = Ok s' ->
@@ -327,7 +327,14 @@ Proof.
   split; [eapply approve_marked_noop|eapply decline_marked_noop]; eauto.
 Qed.
 
+End Votes.
+
 (* ================================================================ 4. settings messages: what the decorator establishes *)
+Section Settings.
+Variable v : variant.
+Variable H : string -> string.
+Variable minrew : Z.
+Notation step := (step v H minrew).
 Definition keyed_op (o : op) : option kp :=
   match o with OCreate _ _ k | OAdd _ _ _ k | ORem _ _ _ k | ODropL _ _ k => Some k | _ => None end.
 
@@ -354,7 +361,7 @@ Proof.
   intros s o st Ho Hs He. unfold Custody.step, Custody.ante. rewrite Hs, He.
   destruct o; try contradiction; reflexivity.
 Qed.
-End Votes.
+End Settings.
 
 (* ================================================================ 5. helper lemmas for the soundness of the spec checker *)
 (* ---- reflexivity of the comparisons *)
@@ -679,7 +686,7 @@ Proof.
   - (* rotation *)
     assert (Hx : x <> a) by (intro; apply Hp; left; auto).
     assert (Hy : x <> nw) by (intro; apply Hp; right; left; auto).
-    simpl in E. destruct (negb ok); [discriminate|]. inversion E; subst. clear E.
+    simpl in E. destruct (negb ok || (a =? nw)); [discriminate|]. inversion E; subst. clear E.
     intros d. unfold getA at 2. simpl accts. unfold alist_get; fold (@alist_get acct).
     destruct (x =? nw) eqn:E1; [lia|]. destruct (x =? a) eqn:E2; [lia|]. fold (getA s x). lia.
 Qed.
@@ -1036,7 +1043,7 @@ Lemma approve_noop_sound : forall n lg s f t hraw,
   Inv lg s -> is_custodian (getA s t) f = true -> sound_step n lg s s (OApprove f t hraw).
 Proof.
   intros n lg s f t hraw I Hisc. unfold sound_step, op_clauses. cbv zeta.
-  rewrite Hisc, voted_refl, !andb_false_r, paid_refl, released_same_pool by reflexivity. simpl. split; [intros x []|exact I].
+  rewrite Hisc, voted_refl, !andb_false_r, paid_refl, (dec_nondec s s t (nondec_refl s t)), released_same_pool by reflexivity. simpl. split; [intros x []|exact I].
 Qed.
 
 Lemma sound_approve : forall n lg s f t hraw s',
@@ -1134,7 +1141,7 @@ Lemma decline_noop_sound : forall n lg s f t hraw,
   Inv lg s -> is_custodian (getA s t) f = true -> sound_step n lg s s (ODecline f t hraw).
 Proof.
   intros n lg s f t hraw I Hisc. unfold sound_step, op_clauses. cbv zeta.
-  rewrite Hisc, voted_refl, !andb_false_r, paid_refl, released_same_pool by reflexivity. simpl. split; [intros x []|exact I].
+  rewrite Hisc, voted_refl, !andb_false_r, paid_refl, (dec_nondec s s t (nondec_refl s t)), released_same_pool by reflexivity. simpl. split; [intros x []|exact I].
 Qed.
 
 Lemma sound_decline : forall n lg s f t hraw s',
@@ -1371,309 +1378,234 @@ Proof.
     destruct (dec (getA s sg) (getA s' sg)); simpl snd; exact V.
 Qed.
 
+(* ---- address rotation *)
+Lemma bal_merge_fold : forall (b cs : coins) d l acc,
+  bal_get d (fold_left (fun acc c => map_set (fst c) (bal_get (fst c) b + bal_get (fst c) cs) acc) l acc)
+  = if existsb (fun c : Z * Z => fst c =? d) l then bal_get d b + bal_get d cs else bal_get d acc.
+Proof.
+  intros b cs d. induction l as [|c l IH]; intros acc; simpl; [reflexivity|].
+  rewrite IH, bal_get_map_set. destruct (existsb (fun c0 : Z * Z => fst c0 =? d) l); [rewrite orb_true_r; reflexivity|].
+  rewrite orb_false_r. destruct (fst c =? d) eqn:E.
+  - assert (fst c = d) by lia; subst. rewrite Z.eqb_refl. reflexivity.
+  - destruct (d =? fst c) eqn:E2; [lia|reflexivity].
+Qed.
+Lemma bal_get_absent : forall d (cs : coins), existsb (fun c : Z * Z => fst c =? d) cs = false -> bal_get d cs = 0.
+Proof.
+  intros d cs. unfold bal_get. induction cs as [|[k x] cs IH]; simpl; intros E; [reflexivity|].
+  apply orb_false_elim in E. destruct E as [E1 E2]. destruct (d =? k) eqn:E; [lia|exact (IH E2)].
+Qed.
+Lemma bal_merge_get : forall cs b d, bal_get d (bal_merge b cs) = bal_get d b + bal_get d cs.
+Proof.
+  intros cs b d. unfold bal_merge. rewrite bal_merge_fold.
+  destruct (existsb (fun c : Z * Z => fst c =? d) cs) eqn:E; [reflexivity|]. rewrite (bal_get_absent _ _ E). lia.
+Qed.
+
+Lemma moved_tx_refl : forall a nw x, moved_tx a nw x x = true.
+Proof. intros. unfold moved_tx. rewrite txr_eqb_refl. reflexivity. Qed.
+
+Definition ren_tx (a nw : Z) (e : string * txr) : string * txr :=
+  (fst e, if t_from (snd e) =? a then mkTx nw (t_to (snd e)) (t_amt (snd e)) (t_pw (snd e)) (t_rew (snd e)) (t_votes (snd e)) (t_conf (snd e)) else snd e).
+
+Lemma pool_moved_eqb : forall a nw p, map_eqb String.eqb (moved_tx a nw) (map (ren_tx a nw) p) p = true.
+Proof.
+  intros a nw p. unfold map_eqb. rewrite map_length, Nat.eqb_refl. simpl.
+  assert (X : sub_map String.eqb (moved_tx a nw) (map (ren_tx a nw) p) p = true).
+  { unfold sub_map. apply forallb_forall. intros e He. apply in_map_iff in He. destruct He as (e0 & <- & He0).
+    apply existsb_exists. exists e0. split; [exact He0|]. unfold ren_tx. simpl fst. rewrite String.eqb_refl. simpl snd. simpl andb.
+    unfold moved_tx. destruct (t_from (snd e0) =? a) eqn:Ef.
+    - unfold tx_from. rewrite txr_eqb_refl. simpl andb. rewrite orb_true_r. reflexivity.
+    - rewrite txr_eqb_refl. reflexivity. }
+  assert (Y : sub_map String.eqb (moved_tx a nw) p (map (ren_tx a nw) p) = true).
+  { unfold sub_map. apply forallb_forall. intros e0 He0. apply existsb_exists. exists (ren_tx a nw e0).
+    split; [apply in_map; exact He0|]. unfold ren_tx. simpl fst. rewrite String.eqb_refl. simpl snd. simpl andb.
+    unfold moved_tx. destruct (t_from (snd e0) =? a) eqn:Ef.
+    - unfold tx_from. rewrite txr_eqb_refl. simpl. rewrite !orb_true_r. reflexivity.
+    - rewrite txr_eqb_refl. reflexivity. }
+  rewrite X, Y. reflexivity.
+Qed.
+
+Lemma pool_get_ren : forall a nw h p, pool_get h (map (ren_tx a nw) p) = option_map (fun r => snd (ren_tx a nw (h, r))) (pool_get h p).
+Proof.
+  induction p as [|[k x] p IH]; simpl; [reflexivity|]. destruct (String.eqb h k); [reflexivity|exact IH].
+Qed.
+
+Lemma in3_ren_other : forall a nw f t h l, t <> nw -> in3 f t h (ren3 a nw l) = in3 f t h l.
+Proof.
+  intros a nw f t h l Hn. unfold ren3, in3. rewrite existsb_app.
+  assert (X : existsb (fun e : Z * Z * string => let '(f', t', h') := e in (f =? f') && (t =? t') && String.eqb h h')
+                (map (fun e : Z * Z * string => let '(f0, _, h0) := e in (f0, nw, h0)) (filter (fun e : Z * Z * string => let '(_, t0, _) := e in t0 =? a) l)) = false).
+  { apply Bool.not_true_is_false. intros E. apply existsb_exists in E. destruct E as (e & He & E).
+    apply in_map_iff in He. destruct He as ([[f0 t0] h0] & <- & _). lia. }
+  rewrite X. reflexivity.
+Qed.
+Lemma count_ren_other : forall a nw t h l, t <> nw -> count_appr t h (ren3 a nw l) = count_appr t h l.
+Proof.
+  intros a nw t h l Hn. unfold count_appr, ren3. rewrite filter_app, app_length.
+  assert (X : filter (fun e : Z * Z * string => let '(_, t', h') := e in (t =? t') && String.eqb h h')
+                (map (fun e : Z * Z * string => let '(f0, _, h0) := e in (f0, nw, h0)) (filter (fun e : Z * Z * string => let '(_, t0, _) := e in t0 =? a) l)) = []).
+  { induction (filter (fun e : Z * Z * string => let '(_, t0, _) := e in t0 =? a) l) as [|[[f0 t0] h0] r IH]; simpl; [reflexivity|].
+    destruct (t =? nw) eqn:E; [lia|]. simpl. exact IH. }
+  rewrite X. simpl. reflexivity.
+Qed.
+Lemma in2_ren_keep : forall a nw t h l, in2 t h l = true -> in2 t h (ren2 a nw l) = true.
+Proof. intros. unfold ren2, in2 in *. rewrite existsb_app. rewrite H0. apply orb_true_r. Qed.
+Lemma in2_ren_moved : forall a nw h l, in2 a h l = true -> in2 nw h (ren2 a nw l) = true.
+Proof.
+  intros a nw h l E. unfold ren2, in2 in *. rewrite existsb_app. apply existsb_exists in E. destruct E as ([t0 h0] & He & E).
+  simpl in E. apply andb_prop in E. destruct E as [E1 E2].
+  assert (X : existsb (fun e : Z * string => (nw =? fst e) && String.eqb h (snd e)) (map (fun e : Z * string => (nw, snd e)) (filter (fun e : Z * string => fst e =? a) l)) = true).
+  { apply existsb_exists. exists (nw, h0). split; [|simpl; rewrite Z.eqb_refl, E2; reflexivity].
+    apply in_map_iff. exists (t0, h0). split; [reflexivity|]. apply filter_In. split; [exact He|simpl; lia]. }
+  rewrite X. reflexivity.
+Qed.
+Lemma mark_get_ren_other : forall a nw f t h l, t <> a -> t <> nw -> mark_get f t h (ren_marks a nw l) = mark_get f t h l.
+Proof.
+  intros a nw f t h l Ha Hn. unfold mark_get, ren_marks. induction l as [|[[[f0 t0] h0] x0] l IH]; simpl; [reflexivity|].
+  destruct (t0 =? a) eqn:E0.
+  - assert (t0 = a) by lia; subst. assert (X : (t =? nw) = false) by lia. assert (Y : (t =? a) = false) by lia. rewrite X, Y, !andb_false_r. simpl. exact IH.
+  - destruct ((f =? f0) && (t =? t0) && String.eqb h h0); [reflexivity|exact IH].
+Qed.
+
+Lemma rotated_cons2 : forall lg a nw t x y z,
+  rotated (mkLog x y z (a :: nw :: l_rot lg)) t = false -> t <> a /\ t <> nw /\ rotated lg t = false.
+Proof.
+  intros lg a nw t x y z R. unfold rotated in *. simpl in R.
+  apply orb_false_elim in R. destruct R as [R1 R]. apply orb_false_elim in R. destruct R as [R2 R]. repeat split; [lia|lia|exact R].
+Qed.
+
+Lemma sound_rotate : forall n lg s a nw ok s',
+  Inv lg s -> handle v s (ORotate a nw ok) = Ok s' -> sound_step n lg s s' (ORotate a nw ok).
+Proof.
+  intros n lg s a nw ok s' I E. pose proof I as (I1 & I2 & I3 & I4).
+  simpl in E. destruct ok; simpl negb in E; simpl orb in E; [|discriminate].
+  destruct (a =? nw) eqn:Ean; [discriminate|]. assert (Hne : a <> nw) by lia.
+  inversion E; subst s'. clear E.
+  set (A := getA s a) in *. set (B := getA s nw) in *.
+  set (pl := if v_rot v then option_map (map (ren_tx a nw)) (a_pool A) else a_pool A).
+  set (mvo := fun (X : Type) (x y : option X) => match x with Some _ => x | None => y end).
+  set (B' := mkAcct (mvo _ (a_set A) (a_set B)) (mvo _ (a_cust A) (a_cust B)) (mvo _ (a_wl A) (a_wl B)) (mvo _ (a_lim A) (a_lim B))
+                    (mvo _ pl (a_pool B)) (bal_merge (a_bal B) (a_bal A)) (mvo _ (a_stat A) (a_stat B))).
+  set (A' := mkAcct None None None None None [] None).
+  set (s' := mkSt (accts (setA (setA s a A') nw B')) (if v_rot v then ren_marks a nw (marks s) else marks s)).
+  assert (Gn : getA s' nw = B') by (unfold s', getA; simpl; rewrite Z.eqb_refl; reflexivity).
+  assert (Ga : getA s' a = A') by (unfold s', getA; simpl; rewrite Ean, Z.eqb_refl; reflexivity).
+  assert (Go : forall u, u <> a -> u <> nw -> getA s' u = getA s u).
+  { intros u H1 H2. unfold s', getA. simpl. destruct (u =? nw) eqn:E1; [lia|]. destruct (u =? a) eqn:E2; [lia|]. reflexivity. }
+  change (sound_step n lg s s' (ORotate a nw true)).
+  unfold sound_step, op_clauses. cbv zeta. cbv beta. fold A B. rewrite Gn, Ga. simpl fst. simpl snd.
+  split.
+  - (* the rotation clauses: the records and the funds arrived *)
+    intros x Hin. exfalso. simpl app in Hin.
+    assert (C1 : opt_eqb settings_eqb (a_set B') (mvo _ (a_set A) (a_set B)) = true) by (apply opt_eqb_refl; apply settings_eqb_refl).
+    assert (C2 : opt_eqb (map_eqb Z.eqb Bool.eqb) (a_cust B') (mvo _ (a_cust A) (a_cust B)) = true) by (apply opt_eqb_refl; apply map_eqb_refl; [apply Z.eqb_refl|apply Bool.eqb_reflx]).
+    assert (C3 : opt_eqb (map_eqb Z.eqb Bool.eqb) (a_wl B') (mvo _ (a_wl A) (a_wl B)) = true) by (apply opt_eqb_refl; apply map_eqb_refl; [apply Z.eqb_refl|apply Bool.eqb_reflx]).
+    assert (C4 : opt_eqb (map_eqb Z.eqb lim_eqb) (a_lim B') (mvo _ (a_lim A) (a_lim B)) = true) by (apply opt_eqb_refl; apply map_eqb_refl; [apply Z.eqb_refl|apply lim_eqb_refl]).
+    assert (C6 : opt_eqb (map_eqb Z.eqb stat_eqb) (a_stat B') (mvo _ (a_stat A) (a_stat B)) = true) by (apply opt_eqb_refl; apply map_eqb_refl; [apply Z.eqb_refl|apply stat_eqb_refl]).
+    assert (C5 : opt_eqb (map_eqb String.eqb (moved_tx a nw)) (a_pool B') (mvo _ (a_pool A) (a_pool B)) = true).
+    { unfold B'. cbn [a_pool]. unfold pl, mvo. destruct (a_pool A) as [p|].
+      - destruct (v_rot v); simpl; [apply pool_moved_eqb|apply map_eqb_refl; [apply String.eqb_refl|apply moved_tx_refl]].
+      - destruct (v_rot v); simpl; apply opt_eqb_refl; apply map_eqb_refl; try apply String.eqb_refl; apply moved_tx_refl. }
+    assert (C7 : forallb (fun d => (bal_get d (a_bal B') =? bal_get d (a_bal B) + bal_get d (a_bal A)) && (bal_get d (a_bal A') =? 0)) denoms = true).
+    { apply forallb_forall. intros d _. unfold B', A'. cbn [a_bal]. rewrite bal_merge_get, Z.eqb_refl. reflexivity. }
+    unfold B' in C1, C2, C3, C4, C5, C6. cbn [a_set a_cust a_wl a_lim a_pool a_stat] in C1, C2, C3, C4, C5, C6.
+    unfold B', A' in C7. cbn [a_bal] in C7.
+    unfold mvo in C1, C2, C3, C4, C5, C6, Hin. cbv beta in C1, C2, C3, C4, C5, C6, Hin. rewrite C1, C2, C3, C4, C5, C6 in Hin. rewrite !bal_merge_get, !Z.eqb_refl in Hin. simpl in Hin. destruct Hin.
+  - (* the invariant: the two accounts of the rotation are outside the vote guarantees from now on *)
+    set (lg' := mkLog (ren3 a nw (l_appr lg)) (ren3 a nw (l_decl lg)) (ren2 a nw (l_conf lg)) (a :: nw :: l_rot lg)).
+    assert (Mo : forall f t h, t <> a -> t <> nw -> mark_get f t h (marks s') = mark_get f t h (marks s)).
+    { intros f t h H1 H2. unfold s'. simpl marks. destruct (v_rot v); [apply mark_get_ren_other; assumption|reflexivity]. }
+    split; [|split; [|split]].
+    + intros f t h R X. destruct (rotated_cons2 _ _ _ _ _ _ _ R) as (H1 & H2 & R0).
+      unfold lg' in X. simpl l_appr in X. simpl l_decl in X. rewrite !in3_ren_other in X by assumption.
+      rewrite Mo by assumption. exact (I1 f t h R0 X).
+    + intros t p h tx R Q1 Q2. destruct (rotated_cons2 _ _ _ _ _ _ _ R) as (H1 & H2 & R0).
+      unfold pool_of in Q1. rewrite Go in Q1 by assumption. unfold lg'. simpl l_appr. rewrite count_ren_other by assumption.
+      exact (I2 t p h tx R0 Q1 Q2).
+    + intros t p h tx Q1 Q2 Q3. unfold lg'. simpl l_conf. unfold pool_of in Q1.
+      destruct (Z.eq_dec t nw) as [->|Hn].
+      * rewrite Gn in Q1. unfold B' in Q1. cbn [a_pool] in Q1. unfold mvo, pl in Q1.
+        destruct (a_pool A) as [pa|] eqn:Hpa.
+        -- destruct (v_rot v).
+           ++ simpl in Q1. inversion Q1; subst p. rewrite pool_get_ren in Q2. destruct (pool_get h pa) as [r|] eqn:Hr; [|discriminate].
+              simpl in Q2. inversion Q2; subst tx. apply in2_ren_moved. apply (I3 a pa h r Hpa Hr).
+              destruct (t_from r =? a); exact Q3.
+           ++ inversion Q1; subst p. apply in2_ren_moved. exact (I3 a pa h tx Hpa Q2 Q3).
+        -- assert (Q1' : a_pool B = Some p) by (destruct (v_rot v); exact Q1).
+           apply in2_ren_keep. exact (I3 nw p h tx Q1' Q2 Q3).
+      * destruct (Z.eq_dec t a) as [->|Ha]; [rewrite Ga in Q1; discriminate|].
+        rewrite Go in Q1 by assumption. apply in2_ren_keep. exact (I3 t p h tx Q1 Q2 Q3).
+    + intros x st d a0 tm Q1 Q2.
+      destruct (Z.eq_dec x nw) as [->|Hn].
+      * rewrite Gn in Q1. unfold B' in Q1. cbn [a_stat] in Q1. unfold mvo in Q1.
+        destruct (a_stat A) as [sa|] eqn:Hsa; [inversion Q1; subst st; exact (I4 a sa d a0 tm Hsa Q2)|exact (I4 nw st d a0 tm Q1 Q2)].
+      * destruct (Z.eq_dec x a) as [->|Ha]; [rewrite Ga in Q1; discriminate|].
+        rewrite Go in Q1 by assumption. exact (I4 x st d a0 tm Q1 Q2).
+Qed.
+
+Lemma sound_op : forall n lg s o s',
+  Inv lg s -> step v H minrew s o = Ok s' -> sound_step n lg s s' o.
+Proof.
+  intros n lg s o s' I E.
+  destruct o; try (apply sound_bank; assumption);
+    destruct (step_inv _ _ _ _ _ _ E) as (s1 & Ea & Eh);
+    (assert (Es : s1 = s) by (eapply ante_nonbank; [exact Ea | exact Logic.I])); subst s1;
+    first [ apply sound_approve; assumption | apply sound_decline; assumption | apply sound_confirm; assumption
+          | apply sound_send; assumption | apply sound_multi; assumption | apply sound_rotate; assumption
+          | apply sound_quiet; [assumption|assumption|exact Logic.I] ].
+Qed.
+
+Lemma key_clauses_residual : forall n a0 s s' o c, In c (key_clauses n a0 s s' o) -> residual c = true.
+Proof.
+  intros n a0 s s' o c Hin. unfold key_clauses in Hin. cbv zeta in Hin.
+  apply in_flat_map in Hin. destruct Hin as (i & _ & Hin).
+  repeat match goal with
+  | X : In _ (if ?b then _ else _) |- _ => destruct b
+  | X : In _ (match ?x with _ => _ end) |- _ => destruct x
+  | X : In _ [] |- _ => destruct X
+  | X : In _ (_ :: _) |- _ => destruct X as [X|X]; [subst; apply residual_key|]
+  end.
+Qed.
+
+Lemma trace_sound : forall ops n lg id id0 a0 s, id0 < id -> Inv lg s ->
+  forall c, In c (trace_clauses n lg id0 a0 s (model_trace v H minrew id s ops)) -> residual c = true.
+Proof.
+  induction ops as [|o ops IH]; intros n lg id id0 a0 s Hid I c Hin; simpl in Hin; [contradiction|].
+  assert (X : (id =? id0) = false) by lia. rewrite X in Hin.
+  destruct (step v H minrew s o) as [s1|e|e] eqn:Es; unfold Custody.exec in Hin; rewrite Es in Hin; simpl outcome_code in Hin.
+  - simpl Z.eqb in Hin. cbv iota in Hin.
+    destruct (sound_op n lg s o s1 I Es) as [S1 S2].
+    apply in_app_or in Hin. destruct Hin as [Hin|Hin].
+    + unfold step_clauses in Hin. simpl fst in Hin.
+      apply in_app_or in Hin. destruct Hin as [Hin|Hin]; [eapply key_clauses_residual; exact Hin|].
+      apply in_app_or in Hin. destruct Hin as [Hin|Hin]; [rewrite (out_sound _ _ _ _ _ _ _ Es) in Hin; contradiction|].
+      exact (S1 c Hin).
+    + unfold step_clauses in Hin. simpl snd in Hin. apply (IH n _ (id + 1) id s s1 ltac:(lia) S2 c Hin).
+  - simpl Z.eqb in Hin. cbv iota in Hin. rewrite state_eqb_refl in Hin. simpl in Hin. apply (IH n lg (id + 1) id s s ltac:(lia) I c Hin).
+  - simpl Z.eqb in Hin. cbv iota in Hin. rewrite state_eqb_refl in Hin. simpl in Hin. apply (IH n lg (id + 1) id s s ltac:(lia) I c Hin).
+Qed.
+
+Lemma init_fields : forall bals t, a_pool (getA (init_state bals) t) = None /\ a_stat (getA (init_state bals) t) = None.
+Proof.
+  intros bals t. unfold getA, init_state. simpl.
+  generalize (seq 0 (List.length bals)). induction bals as [|b bals IH]; intros [|k ks]; simpl; auto.
+  destruct (t =? Z.of_nat k); auto.
+Qed.
+
+Lemma Inv_init : forall bals, Inv no_log (init_state bals).
+Proof.
+  intros bals. split; [|split; [|split]].
+  - intros f t h _ X. simpl in X. discriminate.
+  - intros t p h tx _ Q. unfold pool_of in Q. rewrite (proj1 (init_fields bals t)) in Q. discriminate.
+  - intros t p h tx Q. unfold pool_of in Q. rewrite (proj1 (init_fields bals t)) in Q. discriminate.
+  - intros x st d a tm Q. rewrite (proj2 (init_fields bals x)) in Q. discriminate.
+Qed.
+
+(* THE soundness of the checker on the repaired variant: over every history from the initial state -- settings
+   edits, address rotations, sends of every kind included -- the checker reports nothing but the design-level
+   clauses and those of rotated accounts *)
+Theorem chk_sound_repaired : forall bals ops c, In c (model_clauses v H minrew bals ops) -> residual c = true.
+Proof. intros bals ops c Hin. unfold model_clauses in Hin. exact (trace_sound ops _ _ 0 (-1) _ _ ltac:(lia) (Inv_init bals) c Hin). Qed.
 End Sound.
-
-(* ================================================================ 8. the full-strength statements, per variant *)
-Definition reachable (v : variant) (H : string -> string) (minrew : Z) (s : state) : Prop :=
-  exists bals ops, s = run v H minrew (init_state bals) ops.
-
-(* the custody configuration of a guarded account changes only for someone who shows the
-   preimage of its current key *)
-Definition settings_change_requires_key_stmt (v : variant) : Prop :=
-  forall H minrew s o x st, reachable v H minrew s ->
-    a_set (getA s x) = Some st -> s_en st = true ->
-    config_eqb (getA s x) (getA (exec v H minrew s o) x) = false ->
-    exists k, op_kp o = Some k /\ H (k_old k) = s_key st.
-
-(* an approval or a decline moves coins only if the voter is a custodian of the target *)
-Definition only_custodians_count_stmt (v : variant) : Prop :=
-  forall H minrew s f t h y d, reachable v H minrew s ->
-    (bal_get d (a_bal (getA (exec v H minrew s (OApprove f t h)) y)) <> bal_get d (a_bal (getA s y))
-     \/ bal_get d (a_bal (getA (exec v H minrew s (ODecline f t h)) y)) <> bal_get d (a_bal (getA s y))) ->
-    is_custodian (getA s t) f = true.
-
-(* a password confirmation has an effect on a pending transfer only if the password given is the
-   one the transfer was requested with (as it is, or as its digest) *)
-Definition password_confirmed_when_required_stmt (v : variant) : Prop :=
-  forall H minrew s f t h p ph pl tx, reachable v H minrew s ->
-    a_pool (getA s t) = Some pl -> pool_get (to_lower h) pl = Some tx ->
-    exec v H minrew s (OConfirm f t h p ph) <> s ->
-    p = t_pw tx \/ ph = t_pw tx.
-
-(* over every history the checker's threshold clauses never fire: every pay-out of a pooled transfer of a
-   guarded account was approved by the configured share of its custodians, each custodian counted once *)
-Definition threshold_clause (c : string) : bool :=
-  str_in c ["threshold:approve:nongenuine"; "threshold:approve:undercount"; "threshold:confirm:nongenuine";
-            "threshold:confirm:undercount"; "threshold:custody_send:direct"]%string.
-Definition release_only_after_threshold_stmt (v : variant) : Prop :=
-  forall H minrew bals ops c, In c (model_clauses v H minrew bals ops) -> threshold_clause c = false.
-
-(* a custodian counts once per transfer (the transfer is named by its hash, whatever the spelling) *)
-Definition vote_clause (c : string) : bool := str_in c ["vote_once:approve"; "vote_once:decline"]%string.
-Definition vote_counts_once_per_transfer_stmt (v : variant) : Prop :=
-  forall H minrew bals ops c, In c (model_clauses v H minrew bals ops) -> vote_clause c = false.
-
-(* the whole property: the checker accepts every history of the model *)
-Definition C17_full_stmt (v : variant) : Prop := forall H minrew bals ops, model_clauses v H minrew bals ops = [].
-(* ... and what the repairs under /verif/fixes achieve: nothing but the design-level clauses remains *)
-Definition C17_repaired_stmt (v : variant) : Prop :=
-  forall H minrew bals ops c, In c (model_clauses v H minrew bals ops) -> residual c = true.
-
-Lemma residual_not_threshold : forall c, residual c = true -> threshold_clause c = false /\ vote_clause c = false.
-Proof.
-  intros c R. unfold residual in R. apply orb_prop in R. destruct R as [R|R].
-  - destruct c as [|a c]; [discriminate|]. destruct a as [[|] [|] [|] [|] [|] [|] [|] [|]]; try discriminate.
-    split; reflexivity.
-  - simpl in R. repeat (apply orb_prop in R; destruct R as [R|R]; [apply String.eqb_eq in R; subst; split; reflexivity|]).
-    discriminate.
-Qed.
-
-Section Repaired.
-Variable v : variant.
-
-Theorem repaired_all_clauses : v_cust_only v = true -> v_lower v = true -> v_pwd v = true -> C17_repaired_stmt v.
-Proof. intros A B C H minrew bals ops c Hin. exact (chk_sound_repaired v A B C H minrew bals ops c Hin). Qed.
-
-Theorem release_only_after_threshold_holds :
-  v_cust_only v = true -> v_lower v = true -> v_pwd v = true -> release_only_after_threshold_stmt v.
-Proof. intros A B C H minrew bals ops c Hin. exact (proj1 (residual_not_threshold c (repaired_all_clauses A B C H minrew bals ops c Hin))). Qed.
-
-Theorem vote_counts_once_per_transfer_holds :
-  v_cust_only v = true -> v_lower v = true -> v_pwd v = true -> vote_counts_once_per_transfer_stmt v.
-Proof. intros A B C H minrew bals ops c Hin. exact (proj2 (residual_not_threshold c (repaired_all_clauses A B C H minrew bals ops c Hin))). Qed.
-
-Lemma exec_err_same : forall H minrew s o, (forall s', step v H minrew s o <> Ok s') -> exec v H minrew s o = s.
-Proof. intros H minrew s o N. unfold Custody.exec. destruct (step v H minrew s o) eqn:E; auto. exfalso; exact (N _ eq_refl). Qed.
-
-Theorem only_custodians_count_holds : v_cust_only v = true -> only_custodians_count_stmt v.
-Proof.
-  intros A H minrew s f t h y d _ Hch.
-  destruct (is_custodian (getA s t) f) eqn:Hisc; [reflexivity|exfalso].
-  assert (V : voter_ok v (getA s t) f = false).
-  { unfold voter_ok. rewrite A. destruct (a_cust (getA s t)) as [c|] eqn:Hc; [|reflexivity].
-    destruct (bool_at f c) eqn:Hb; [|reflexivity]. rewrite (bool_at_is_custodian _ _ _ Hc Hb) in Hisc. discriminate. }
-  assert (X1 : exec v H minrew s (OApprove f t h) = s).
-  { apply exec_err_same. intros s' E. destruct (step_inv _ _ _ _ _ _ E) as (s1 & Ea & Eh).
-    apply ante_nonbank in Ea; [|exact Logic.I]. subst s1. simpl in Eh. rewrite V in Eh. discriminate. }
-  assert (X2 : exec v H minrew s (ODecline f t h) = s).
-  { apply exec_err_same. intros s' E. destruct (step_inv _ _ _ _ _ _ E) as (s1 & Ea & Eh).
-    apply ante_nonbank in Ea; [|exact Logic.I]. subst s1. simpl in Eh. rewrite V in Eh. discriminate. }
-  rewrite X1, X2 in Hch. destruct Hch as [N|N]; apply N; reflexivity.
-Qed.
-
-Theorem password_confirmed_when_required_holds : v_pwd v = true -> password_confirmed_when_required_stmt v.
-Proof.
-  intros A H minrew s f t h p ph pl tx _ Hp Hg Hch.
-  destruct (String.eqb p (t_pw tx)) eqn:Ep; [left; apply String.eqb_eq; exact Ep|exfalso].
-  apply Hch. apply exec_err_same. intros s' E. destruct (step_inv _ _ _ _ _ _ E) as (s1 & Ea & Eh).
-  apply ante_nonbank in Ea; [|exact Logic.I]. subst s1. simpl in Eh. rewrite Hp, Hg, A, Ep in Eh. discriminate.
-Qed.
-End Repaired.
-
-(* ================================================================ 9. refutations on the variants that lack a repair: concrete
-   histories from the initial state; each is replayed on the real code by the directed histories of
-   harness/cmd/c17 as long as the tree is of that variant *)
-Definition w_bals : list coins := [[(0, 1000000)]; [(0, 1000000)]; [(0, 5000)]; [(0, 5000)]; [(0, 300)]; []].
-Definition kp0 (old new : string) : kp := mkKp old new (-1) (-1).
-(* account 0 guarded: custodians 2 and 3, current key digest "K3" *)
-Definition w_setup (mode : Z) (pwd : bool) : list op :=
-  [ OCreate 0 (mkSet false mode pwd false false "" (-1)) (kp0 "Kx" "K1");
-    OAdd LCust 0 [2; 3] (kp0 "K1" "K2");
-    OCreate 0 (mkSet true mode pwd false false "" (-1)) (kp0 "K2" "K3") ]%string.
-Definition w_send : op := OSend 0 5 [(0, 1000)] "P1" [(0, 400)] "ab12cd34".
-Definition w_run (v : variant) (ops : list op) : state := run v Hid 200 (init_state w_bals) ops.
-Definition bal0 (s : state) (x : Z) : Z := bal_get 0 (a_bal (getA s x)).
-
-Lemma w_reachable : forall v ops, reachable v Hid 200 (w_run v ops).
-Proof. intros v ops; exists w_bals, ops; reflexivity. Qed.
-
-Lemma str_in_In : forall x l, str_in x l = true -> In x l.
-Proof.
-  induction l as [|y l IH]; simpl; [discriminate|]. intros E. apply orb_prop in E. destruct E as [E|E].
-  - left. apply String.eqb_eq in E. auto.
-  - right. auto.
-Qed.
-
-Ltac all_variants v :=
-  destruct v; simpl v_cust_only in *; simpl v_lower in *; simpl v_pwd in *;
-  repeat match goal with b : bool |- _ => destruct b end; try discriminate.
-
-(* no variant repairs the settings messages: (a) MsgDisableCustodyRecord has no arm in the decorator *)
-Lemma key_refuted_no_arm : forall v, exists ops o x st,
-  let s := w_run v ops in
-  a_set (getA s x) = Some st /\ s_en st = true /\ config_eqb (getA s x) (getA (exec v Hid 200 s o) x) = false
-  /\ forall k, op_kp o = Some k -> Hid (k_old k) <> s_key st.
-Proof.
-  intros v. exists (w_setup 100 false), (ODisable 0 (kp0 "Kx" "K9")), 0, (mkSet true 100 false false false "K3" (-1)).
-  cbv zeta. all_variants v;
-    (split; [vm_compute; reflexivity|]; split; [reflexivity|]; split; [vm_compute; reflexivity|];
-     intros k Hk; inversion Hk; subst; vm_compute; discriminate).
-Qed.
-
-(* (b) a signer without any custody record skips all checks and names the victim as TargetAddress *)
-Lemma key_refuted_target_norecord : forall v, exists ops o x st,
-  let s := w_run v ops in
-  signer o <> x /\ a_set (getA s (signer o)) = None /\
-  a_set (getA s x) = Some st /\ s_en st = true /\ config_eqb (getA s x) (getA (exec v Hid 200 s o) x) = false
-  /\ forall k, op_kp o = Some k -> Hid (k_old k) <> s_key st.
-Proof.
-  intros v. exists (w_setup 100 false), (ODropL LCust 4 (mkKp "Kx" "K9" (-1) 0)), 0, (mkSet true 100 false false false "K3" (-1)).
-  cbv zeta. all_variants v;
-    (split; [vm_compute; discriminate|]; split; [vm_compute; reflexivity|];
-     split; [vm_compute; reflexivity|]; split; [reflexivity|]; split; [vm_compute; reflexivity|];
-     intros k Hk; inversion Hk; subst; vm_compute; discriminate).
-Qed.
-
-(* (c) a guarded signer proves ITS OWN key and names its own NextController: the record changed is the victim's *)
-Lemma key_refuted_target_next : forall v, exists ops o x st,
-  let s := w_run v ops in
-  signer o <> x /\ a_set (getA s x) = Some st /\ s_en st = true
-  /\ config_eqb (getA s x) (getA (exec v Hid 200 s o) x) = false
-  /\ forall k, op_kp o = Some k -> Hid (k_old k) <> s_key st.
-Proof.
-  intros v.
-  exists (app (w_setup 100 false) [OCreate 1 (mkSet true 50 false false false "" (-1)) (mkKp "Kx" "K7" 0 (-1))])%string,
-         (OAdd LCust 1 [4] (mkKp "K7" "K8" (-1) 0)), 0, (mkSet true 100 false false false "K3" (-1)).
-  cbv zeta. all_variants v;
-    (split; [vm_compute; discriminate|]; split; [vm_compute; reflexivity|]; split; [reflexivity|];
-     split; [vm_compute; reflexivity|]; intros k Hk; inversion Hk; subst; vm_compute; discriminate).
-Qed.
-
-Theorem settings_change_requires_key_refuted : forall v, ~ settings_change_requires_key_stmt v.
-Proof.
-  intros v St. destruct (key_refuted_no_arm v) as (ops & o & x & st & Hs & He & Hc & Hk).
-  destruct (St Hid 200 (w_run v ops) o x st (w_reachable v ops) Hs He Hc) as (k & Ek & Eh).
-  exact (Hk k Ek Eh).
-Qed.
-
-(* without C17-custodian-only-votes: a stranger approves, is paid the reward share from the guarded
-   account, and his vote counts *)
-Lemma stranger_approval_counts : forall v, v_cust_only v = false -> exists ops f t h,
-  let s := w_run v ops in let s' := exec v Hid 200 s (OApprove f t h) in
-  is_custodian (getA s t) f = false /\ bal0 s' f = bal0 s f + 200 /\ bal0 s' t = bal0 s t - 200
-  /\ option_map (fun p => map (fun e => t_votes (snd e)) p) (a_pool (getA s' t)) = Some [1].
-Proof.
-  intros v Hv. exists (app (w_setup 100 false) [w_send]), 4, 0, "ab12cd34"%string.
-  all_variants v; (vm_compute; repeat split; reflexivity).
-Qed.
-
-Theorem only_custodians_count_refuted : forall v, v_cust_only v = false -> ~ only_custodians_count_stmt v.
-Proof.
-  intros v Hv St. destruct (stranger_approval_counts v Hv) as (ops & f & t & h & Hc & Hb & _).
-  cbv zeta in *. rewrite (St Hid 200 (w_run v ops) f t h f 0 (w_reachable v ops)) in Hc; [discriminate|].
-  left. unfold bal0 in Hb. rewrite Hb. lia.
-Qed.
-
-(* without C17-password-compared: both custodians approved, then a stranger "confirms" with a wrong password: paid out *)
-Lemma wrong_password_pays_out : forall v, v_pwd v = false -> exists ops f t h p ph pl tx,
-  let s := w_run v ops in
-  a_pool (getA s t) = Some pl /\ pool_get (to_lower h) pl = Some tx
-  /\ bal0 (exec v Hid 200 s (OConfirm f t h p ph)) 5 = bal0 s 5 + 1000 /\ p <> t_pw tx /\ ph <> t_pw tx.
-Proof.
-  intros v Hv.
-  exists (app (w_setup 100 true) [w_send; OApprove 2 0 "ab12cd34"; OApprove 3 0 "ab12cd34"])%string, 4, 0, "AB12cd34"%string,
-         "px"%string, "Px"%string, [("ab12cd34"%string, mkTx 0 5 [(0, 1000)] "P1" [(0, 400)] 2 false)], (mkTx 0 5 [(0, 1000)] "P1" [(0, 400)] 2 false).
-  all_variants v; (vm_compute; repeat split; try reflexivity; discriminate).
-Qed.
-
-Theorem password_confirmed_when_required_refuted : forall v, v_pwd v = false -> ~ password_confirmed_when_required_stmt v.
-Proof.
-  intros v Hv St. destruct (wrong_password_pays_out v Hv) as (ops & f & t & h & p & ph & pl & tx & Hl & Hg & Hb & N1 & N2).
-  cbv zeta in *.
-  destruct (St Hid 200 (w_run v ops) f t h p ph pl tx (w_reachable v ops) Hl Hg); [|congruence|congruence].
-  intros E. rewrite E in Hb. lia.
-Qed.
-
-(* threshold 100 % of two custodians.  Without C17-vote-key-lowercase ONE custodian approves twice,
-   spelling the hash differently; without C17-custodian-only-votes two strangers approve: paid out *)
-Definition w_twice : list op := (app (w_setup 100 false) [w_send; OApprove 2 0 "ab12cd34"; OApprove 2 0 "AB12cd34"])%string.
-Definition w_strangers : list op := (app (w_setup 100 false) [w_send; OApprove 4 0 "ab12cd34"; OApprove 1 0 "ab12cd34"])%string.
-
-Lemma one_custodian_twice_pays_out : forall v, v_lower v = false ->
-  bal0 (w_run v w_twice) 5 = 1000 /\ n_cust (getA (w_run v w_twice) 0) = 2
-  /\ In "threshold:approve:nongenuine"%string (model_clauses v Hid 200 w_bals w_twice)
-  /\ In "vote_once:approve"%string (model_clauses v Hid 200 w_bals w_twice).
-Proof.
-  intros v Hv. all_variants v;
-    (split; [vm_compute; reflexivity|]; split; [vm_compute; reflexivity|]; split; apply str_in_In; vm_compute; reflexivity).
-Qed.
-
-Lemma strangers_pay_out : forall v, v_cust_only v = false ->
-  bal0 (w_run v w_strangers) 5 = 1000
-  /\ In "threshold:approve:nongenuine"%string (model_clauses v Hid 200 w_bals w_strangers)
-  /\ In "only_custodians:approve"%string (model_clauses v Hid 200 w_bals w_strangers).
-Proof.
-  intros v Hv. all_variants v; (split; [vm_compute; reflexivity|]; split; apply str_in_In; vm_compute; reflexivity).
-Qed.
-
-Theorem release_only_after_threshold_refuted : forall v, v_cust_only v = false \/ v_lower v = false -> ~ release_only_after_threshold_stmt v.
-Proof.
-  intros v [Hv|Hv] St.
-  - destruct (strangers_pay_out v Hv) as (_ & Hin & _).
-    specialize (St Hid 200 w_bals w_strangers _ Hin). discriminate.
-  - destruct (one_custodian_twice_pays_out v Hv) as (_ & _ & Hin & _).
-    specialize (St Hid 200 w_bals w_twice _ Hin). discriminate.
-Qed.
-
-Theorem vote_counts_once_per_transfer_refuted : forall v, v_lower v = false -> ~ vote_counts_once_per_transfer_stmt v.
-Proof.
-  intros v Hv St. destruct (one_custodian_twice_pays_out v Hv) as (_ & _ & _ & Hin).
-  specialize (St Hid 200 w_bals w_twice _ Hin). discriminate.
-Qed.
-
-(* the checker accepts every history: refuted on every variant (the design-level holes remain) *)
-Theorem C17_full_refuted : forall v, ~ C17_full_stmt v.
-Proof.
-  intros v St. specialize (St Hid 200 w_bals (app (w_setup 100 false) [ODisable 0 (kp0 "Kx" "K9")])).
-  assert (X : (match model_clauses v Hid 200 w_bals (app (w_setup 100 false) [ODisable 0 (kp0 "Kx" "K9")]) with [] => true | _ => false end) = false)
-    by (all_variants v; vm_compute; reflexivity).
-  rewrite St in X. discriminate.
-Qed.
-
-(* the second request replaces the pending one (the pool record is overwritten): the first transfer can
-   no longer be approved; this loses a request but pays nothing out early *)
-Lemma second_send_overwrites_pool : forall v,
-  let s := w_run v (app (w_setup 100 false) [w_send; OApprove 2 0 "ab12cd34"; OSend 0 4 [(0, 2000)] "P2" [(0, 400)] "cd34ab12"])%string in
-  option_map (map fst) (a_pool (getA s 0)) = Some ["cd34ab12"%string]
-  /\ is_panic (step v Hid 200 s (OApprove 3 0 "ab12cd34")) = true.
-Proof. intros v. all_variants v; (vm_compute; split; reflexivity). Qed.
-
-(* the honest run is accepted by the checker on every variant (non-vacuity of the clauses) *)
-Definition w_honest : list op :=
-  (app (w_setup 100 true) [w_send; OConfirm 0 0 "ab12cd34" "P1" "H(P1)"; OApprove 2 0 "ab12cd34";
-                           OApprove 2 0 "ab12cd34"; OApprove 3 0 "ab12cd34"; OBank 0 5 [(0, 10)] 1700000000])%string.
-Lemma honest_run_clean : forall v, model_clauses v Hid 200 w_bals w_honest = [] /\ bal0 (w_run v w_honest) 5 = 1000.
-Proof. intros v. all_variants v; (vm_compute; split; reflexivity). Qed.
-
-Lemma nonvacuous_guarded : forall v,
-  let s := w_run v (w_setup 100 false) in
-  exists st c, a_set (getA s 0) = Some st /\ s_en st = true /\ a_cust (getA s 0) = Some c /\ c <> [].
-Proof.
-  intros v. exists (mkSet true 100 false false false "K3" (-1)), [(2, true); (3, true)].
-  all_variants v; (vm_compute; repeat split; try reflexivity; discriminate).
-Qed.
-
-Lemma nonvacuous_approval : forall v,
-  let s := w_run v (app (w_setup 100 false) [w_send]) in exec v Hid 200 s (OApprove 2 0 "ab12cd34") <> s.
-Proof.
-  intros v. cbv zeta. intros E.
-  assert (X : bal0 (exec v Hid 200 (w_run v (app (w_setup 100 false) [w_send])) (OApprove 2 0 "ab12cd34")) 2
-              = bal0 (w_run v (app (w_setup 100 false) [w_send])) 2) by (rewrite E; reflexivity).
-  all_variants v; (vm_compute in X; discriminate).
-Qed.
-
-(* the repaired limit path: a window of one hour with limit 1000; 600 + 400 pass, one more coin is refused,
-   after the window a new one starts *)
-Definition w_limits : list op :=
-  [ OCreate 0 (mkSet false 50 false false true "" (-1)) (kp0 "Kx" "K1");
-    OAddLim 0 0 1000 "1h" (kp0 "K1" "K2");
-    OBank 0 5 [(0, 600)] 1700000000; OBank 0 5 [(0, 400)] 1700000010; OBank 0 5 [(0, 1)] 1700000020;
-    OBank 0 5 [(0, 1000)] 1700003600 ]%string.
-Lemma limits_window_example :
-  bal0 (w_run v_fixed w_limits) 5 = 2000
-  /\ is_ok (step v_fixed Hid 200 (w_run v_fixed (firstn 4 w_limits)) (OBank 0 5 [(0, 1)] 1700000020)) = false
-  /\ is_panic (step v_tree0 Hid 200 (w_run v_tree0 (firstn 2 w_limits)) (OBank 0 5 [(0, 600)] 1700000000)) = true.
-Proof. vm_compute. repeat split; reflexivity. Qed.
 
 (* ================================================================ 10. one-step facts that hold on every variant *)
 Section AnyVariant.
